@@ -98,6 +98,21 @@ def build(recipe, model, mods):
         return [build(x, model, mods) for x in recipe["list"]]
     if "dict" in recipe:
         return {k: build(x, model, mods) for k, x in recipe["dict"].items()}
+    if "obj" in recipe and recipe["obj"] in ("TimePointDumper", "TimePointParser",
+                                             "DurationParser", "TimeRecurrenceParser"):
+        lit = {k: v["lit"] for k, v in recipe["slots"].items() if isinstance(v, dict) and "lit" in v}
+        if recipe["obj"] == "TimePointDumper":
+            return mods["dumpers"].TimePointDumper(lit.get("num_expanded_year_digits", 2))
+        if recipe["obj"] == "TimePointParser":
+            az = recipe["slots"].get("assumed_time_zone")
+            az = build(az, model, mods) if az else None
+            return mods["parsers"].TimePointParser(
+                num_expanded_year_digits=lit.get("num_expanded_year_digits", 2),
+                allow_truncated=lit.get("allow_truncated", False),
+                allow_only_basic=lit.get("allow_only_basic", False),
+                assumed_time_zone=az,
+                default_to_unknown_time_zone=lit.get("default_to_unknown_time_zone", False))
+        return getattr(mods["parsers"], recipe["obj"])()
     if "obj" in recipe:
         cls = None
         for m in mods.values():
@@ -247,6 +262,36 @@ def replay(rep, repo, verbose=True):
         if not ok:
             out["verdict"] = "inconclusive: precondition false natively: " + r
             return 2, out
+    if rep["function"].startswith("ghost:"):
+        # a ghost program (lemma over the real functions): run it natively on the
+        # counter-model; a failing assert is the reproduced violation
+        src = open(os.path.join(VERIF, "contracts", "ghost_programs.py")).read()
+        g = dict(ns)
+        exec(compile(src, "ghost_programs.py", "exec"), g)
+        gfn = g[rep["function"].split(":", 1)[1]]
+        signal.signal(signal.SIGALRM, _alarm)
+        signal.alarm(int(rep.get("timeout_s", 20)))
+        try:
+            gfn(**args)
+            out["verdict"] = "holds"
+            code = 0
+        except AssertionError:
+            import traceback
+            tb = traceback.extract_tb(sys.exc_info()[2])
+            fr = [f for f in tb if f.filename == "ghost_programs.py"]
+            out["clauses"].append({"clause": "assert at ghost_programs.py:%s: %s" % (
+                fr[-1].lineno if fr else "?", fr[-1].line if fr else ""), "holds": False})
+            out["verdict"] = "VIOLATED"
+            code = 1
+        except Hang:
+            out["verdict"] = "hang"
+            code = 2
+        except Exception as e:
+            out["raised"] = "%s: %s" % (type(e).__name__, e)
+            out["verdict"] = "VIOLATED (exception %s inside the lemma's calls)" % type(e).__name__
+            code = 1
+        signal.alarm(0)
+        return code, out
     fn = resolve(mods, rep["function"])
     exc, result = None, None
     signal.signal(signal.SIGALRM, _alarm)
